@@ -1458,7 +1458,8 @@ class Topo(Stream):
 # ----------------------------------------------------------------------------------------------
 
 SAFE_ATTR_KWS = ['to_json', 'to_dict', 'list_fields', 'update', 'from_json']      # methods of Labels / Capacities
-ELEM_CLASSES = ['NodeSliver', 'ComponentSliver', 'InterfaceSliver', 'NetworkServiceSliver']
+ELEM_CLASSES = ['NodeSliver', 'ComponentSliver', 'InterfaceSliver', 'NetworkServiceSliver', 'Facility', 'FacilityInterface',
+                'SubInterface', 'Link']
 
 
 def c_lelem(x):
@@ -1495,19 +1496,42 @@ class Entry(Topo):
             'whose text was edited; direct attribute assignment then attach; non-string list elements; method names as keywords; '
             'distinct by case')
 
+    def fixture(self):
+        from fim.user import LinkType
+        from fim.slivers.capacities_labels import Labels
+        t, el = Topo.fixture(self)
+        fac = t.add_facility(name='fixture-fac', site='S2')
+        fint = list(fac.interfaces.values())[0]
+        p2 = el['ComponentSliver'].interfaces['fixture-comp-p2']
+        child = p2.add_child_interface(name='fixture-child', labels=Labels(vlan='100'))
+        link = t.add_link(name='fixture-link', ltype=LinkType.Patch, interfaces=[p2, fint])
+        el = dict(el)
+        el.update({'Facility': fac, 'FacilityInterface': fint, 'SubInterface': child, 'Link': link})
+        return t, el
+
     def gen(self, rng, tier):
-        n = 260 if tier == 'quick' else 3000
+        n = 300 if tier == 'quick' else 3300
         lab = LabelsStream()
         out = []
         for _ in range(n):
-            k = rng.choice(['elem_labels', 'elem_labels', 'ctor_kw', 'readback_update', 'history', 'shared', 'edited_text',
-                            'assign_attach', 'assign_attach', 'mixed', 'mixed', 'attr_kw'])
+            k = rng.choice(['elem_labels', 'elem_labels', 'elem_labels', 'ctor_kw', 'readback_update', 'history', 'shared', 'edited_text',
+                            'assign_attach', 'assign_attach', 'mixed', 'mixed', 'attr_kw', 'tags_attach', 'caps_attach'])
             kws = [kv for kv in lab.gen_kws(rng) if kv[1] is not None and kv[0] in ALL_FIELDS]
             if k == 'elem_labels':
                 out.append({'kind': k, 'cls': rng.choice(ELEM_CLASSES), 'how': rng.choice(['attr', 'set_property', 'set_properties', 'update_labels']),
                             'base': valid_kws(rng) if rng.random() < 0.5 else [], 'kws': kws})
             elif k == 'ctor_kw':
-                out.append({'kind': k, 'cls': rng.choice(['NodeSliver', 'ComponentSliver', 'NetworkServiceSliver']), 'kws': kws})
+                cls_ = rng.choice(['NodeSliver', 'ComponentSliver', 'NetworkServiceSliver', 'add_interface', 'add_child_interface'])
+                if cls_ == 'add_child_interface' and not any(a == 'vlan' for a, _ in kws):     # a sub-interface needs a vlan label
+                    kws = [['vlan', gen_value('vlan', rng) or '7']] + kws
+                out.append({'kind': k, 'cls': cls_, 'kws': kws})
+            elif k == 'tags_attach':
+                out.append({'kind': k, 'tags': [wordish(rng, 3, '-') for _ in range(rng.choice([0, 1, 2]))],
+                            'extra': [Misc().tagv(rng) for _ in range(rng.choice([1, 1, 2]))], 'how': rng.choice(['attr', 'set_properties'])})
+            elif k == 'caps_attach':
+                out.append({'kind': k, 'fields': [[f_, rng.choice([0, 1, 64, -1, -5, None, True, 1.5, 'x', 10 ** 12])]
+                                                   for f_ in rng.sample(CAP_FIELDS, rng.choice([1, 1, 2]))],
+                            'how': rng.choice(['attr', 'set_properties'])})
             elif k == 'readback_update':
                 out.append({'kind': k, 'cls': rng.choice(ELEM_CLASSES), 'base': valid_kws(rng), 'kws': kws})
             elif k == 'history':
@@ -1543,6 +1567,9 @@ class Entry(Topo):
     def corpus(self):
         out = [{'kind': 'assign_attach', 'base': [['vlan', '5']], 'field': 'vlan', 'v': 'junk\n', 'how': 'attr'},
                {'kind': 'assign_attach', 'base': [], 'field': 'mac', 'v': '00:11:22:33:44:55', 'how': 'set_properties'},
+               {'kind': 'tags_attach', 'tags': ['a'], 'extra': ['bad tag'], 'how': 'attr'},
+               {'kind': 'tags_attach', 'tags': ['a'], 'extra': ['good-tag'], 'how': 'set_properties'},
+               {'kind': 'caps_attach', 'fields': [['core', -5]], 'how': 'attr'}, {'kind': 'caps_attach', 'fields': [['core', 5]], 'how': 'set_properties'},
                {'kind': 'mixed', 'entry': 0, 'k': 'numa', 'l': [5]}, {'kind': 'mixed', 'entry': 2, 'k': 'local_name', 'l': [1, None]},
                {'kind': 'mixed', 'entry': 1, 'k': 'numa', 'l': ['1', 7.9]}, {'kind': 'mixed', 'entry': 0, 'k': 'vlan', 'l': ['5', 5]},
                {'kind': 'attr_kw', 'what': 'labels', 'entry': 0, 'k': 'to_json', 'forgiving': False},
@@ -1612,9 +1639,14 @@ class Entry(Topo):
                         x = t.add_node(name='ctor-kw-node', site='S1', labels=lab)
                     elif case['cls'] == 'ComponentSliver':
                         x = n.add_component(name='ctor-kw-comp', model_type=ComponentModelType.GPU_RTX6000, labels=lab)
+                    elif case['cls'] == 'add_interface':
+                        x = el['NetworkServiceSliver'].add_interface(name='ctor-kw-if', labels=lab)
+                    elif case['cls'] == 'add_child_interface':
+                        x = el['InterfaceSliver'].add_child_interface(name='ctor-kw-child', labels=lab)
                     else:
                         x = t.add_network_service(name='ctor-kw-svc', nstype=ServiceType.L2Bridge, interfaces=[], labels=lab)
-                    after = self.read_labels(x)
+                    # a sub-interface takes over its parent's local_name (whatever was given): left out of the comparison
+                    after = [kv for kv in self.read_labels(x) if not (case['cls'] == 'add_child_interface' and kv[0] == 'local_name')]
                 except Exception as e:
                     err = type(e).__name__
                 return {'err_or_none': err, 'before': [], 'after': after}
@@ -1630,10 +1662,12 @@ class Entry(Topo):
                 from fim.user.topology import ExperimentTopology
                 n.labels = Labels(**{case['field']: PLACEHOLDER[case['field']]})
                 text = t.serialize()
-                needle = PLACEHOLDER[case['field']]
-                if text.count(needle) != 1:
+                import re as _re
+                pat = _re.compile('(' + _re.escape(case['field']) + r'(?:&quot;|"): (?:&quot;|"))' + _re.escape(PLACEHOLDER[case['field']])
+                                  + r'(?=&quot;|")')
+                if len(pat.findall(text)) != 1:
                     return {'err': 'PlaceholderNotUnique'}
-                text = text.replace(needle, case['v'])
+                text = pat.sub(lambda m_: m_.group(1) + case['v'], text)
                 try:
                     t2 = ExperimentTopology(graph_string=text)
                     x = t2.nodes[FIX['NodeSliver']]
@@ -1665,6 +1699,32 @@ class Entry(Topo):
                     except Exception as e:
                         rerr = type(e).__name__
                 return {'wrote': wrote, 'read_err': rerr}
+            if k in ('tags_attach', 'caps_attach'):
+                from fim.slivers.tags import Tags
+                if k == 'tags_attach':
+                    obj = Tags(*case['tags'])
+                    for x_ in case['extra']:
+                        obj.tags.append(x_)
+                    prop = 'tags'
+                else:
+                    obj = Capacities()
+                    for f_, v_ in case['fields']:
+                        setattr(obj, f_, v_)
+                    prop = 'capacities'
+                wrote, rerr = True, None
+                try:
+                    if case['how'] == 'attr':
+                        setattr(n, prop, obj)
+                    else:
+                        n.set_properties(**{prop: obj})
+                except Exception as e:
+                    wrote = type(e).__name__
+                try:
+                    getattr(n, prop)
+                    n.get_sliver()
+                except Exception as e:
+                    rerr = type(e).__name__
+                return {'wrote': wrote, 'read_err': rerr}
             if k == 'mixed':
                 kw = {case['k']: case['l']}
                 if case['entry'] == 0:
@@ -1694,6 +1754,9 @@ class Entry(Topo):
             d.update({a: b for a, b in case['bad']})
             case = dict(case)
             case['base'] = [[f, d[f]] for f in ALL_FIELDS if f in d]
+        if case['kind'] == 'ctor_kw' and case['cls'] == 'add_child_interface':
+            case = dict(case)
+            case['kws'] = [kv for kv in case['kws'] if kv[0] != 'local_name']
         return case
 
     def to_coq(self, case, o):
@@ -1717,6 +1780,12 @@ class Entry(Topo):
             return 'T_labels (%s, %s)' % (e, ob)
         if k == 'assign_attach':
             return 'T_extra (X_assign_attach %s %s %s %s)' % (c_kvs(case['base']), cstr(case['field']), c_lval(case['v']), cbool(o['wrote'] is True))
+        if k == 'tags_attach':
+            return 'T_extra (X_tags_attach %s %s)' % (clist([c_tagv(x) for x in case['tags'] + case['extra']]), cbool(o['wrote'] is True))
+        if k == 'caps_attach':
+            d = {f: 0 for f in CAP_FIELDS}
+            d.update({a: b for a, b in case['fields']})
+            return 'T_extra (X_caps_attach %s %s)' % (clist(['(%s, %s)' % (cstr(f), c_cval(d[f])) for f in CAP_FIELDS]), cbool(o['wrote'] is True))
         if k == 'mixed':
             return 'T_extra (X_mixed %s %s %s %s)' % (cN(case['entry']), cstr(case['k']), clist([c_lelem(x) for x in case['l']]), c_outcome(o['outcome']))
         if case['what'] == 'labels':
@@ -1770,6 +1839,20 @@ class Entry(Topo):
                 return 'a value assigned directly to a Labels attribute entered the model unchecked (reading the element back: %s)' % (o['read_err'] or 'no complaint')
             if o['wrote'] is not True and good:
                 return 'an in-domain directly assigned value was rejected on attach (%s)' % o['wrote']
+            return None
+        if k in ('tags_attach', 'caps_attach'):
+            if k == 'tags_attach':
+                good = all(doc_tag(x) for x in case['tags'] + case['extra'])
+                what = 'a tag appended directly to Tags.tags'
+            else:
+                good = all(v is None or (isinstance(v, int) and v >= 0) for _, v in case['fields'])
+                what = 'a value assigned directly to a Capacities attribute'
+            if o['read_err']:
+                return '%s left the element unreadable (%s); the write %s' % (what, o['read_err'], 'was accepted' if o['wrote'] is True else 'raised ' + str(o['wrote']))
+            if o['wrote'] is True and not good:
+                return '%s entered the model unchecked' % what
+            if o['wrote'] is not True and good:
+                return 'in-domain content changed directly was rejected on attach (%s)' % o['wrote']
             return None
         if k == 'mixed':
             if o['outcome'] == 'stored':
@@ -1860,7 +1943,9 @@ class C16(Check):
                 ('C16_nonstring_elements_full_or_refuted', replay({'kind': 'mixed', 'entry': 0, 'k': 'numa', 'l': [5]})),
                 ('C16_nonfield_keyword_full_or_refuted', replay({'kind': 'attr_kw', 'what': 'labels', 'entry': 0, 'k': 'to_json', 'forgiving': False})),
                 ('C16_capacity_nonfield_keyword_full_or_refuted', replay({'kind': 'attr_kw', 'what': 'caps', 'entry': 0, 'k': 'to_json', 'forgiving': False})),
-                ('C16_entry_point_table_full_or_refuted', replay({'kind': 'assign_attach', 'base': [], 'field': 'vlan', 'v': 'junk', 'how': 'attr'}))]
+                ('C16_entry_point_table_full_or_refuted', replay({'kind': 'assign_attach', 'base': [], 'field': 'vlan', 'v': 'junk', 'how': 'attr'})),
+                ('C16_tags_attach_full_or_refuted', replay({'kind': 'tags_attach', 'tags': ['a'], 'extra': ['bad tag'], 'how': 'attr'})),
+                ('C16_capacities_attach_full_or_refuted', replay({'kind': 'caps_attach', 'fields': [['core', -5]], 'how': 'attr'}))]
 
     assumptions = [
         'label values are str, list of str, None or another scalar (a list with non-string elements is outside the modelled domain)',
